@@ -259,10 +259,42 @@ def do_call(fd, key, assignment, mode, ctx, eng):
     return ctx("#finalize", eng)(res)
 
 
+LAX = {"yaql.limitIterators": 1000, "yaql.memoryQuota": 10 ** 8}
+
+
+def make_statement(expr, opts, optroute):
+    """The three public ways of configuring the limits: options of the engine itself, per-expression
+    options over a plain engine, per-expression options over an engine with laxer limits."""
+    if optroute in (None, "create") or not opts:
+        return yaql.YaqlFactory().create(options=opts)(expr)
+    base = yaql.YaqlFactory().create(options=dict(LAX) if optroute == "per-expression-over-lax" else {})
+    return base(expr, options=opts)
+
+
+def engine_for(opts, optroute):
+    if optroute in (None, "create") or not opts:
+        return yaql.YaqlFactory().create(options=opts)
+    return getattr(make_statement("$", opts, optroute), "engine", None) or yaql.YaqlFactory().create(options=opts)
+
+
+def width(v, depth=0):
+    """Size of the largest collection at any depth of a finalised result, dictionary KEYS included;
+    anything lazy left in it counts as unbounded."""
+    if v is None or isinstance(v, (str, int, float, bool)) or depth > 50:
+        return 0
+    if isinstance(v, (dict, utils.FrozenDict)):
+        return max([len(v)] + [max(width(k, depth + 1), width(x, depth + 1)) for k, x in v.items()])
+    if isinstance(v, (list, tuple, set, frozenset)):
+        return max([len(v)] + [width(x, depth + 1) for x in v])
+    if utils.is_iterable(v):
+        return 10 ** 9
+    return 0
+
+
 def run_sweep(task, emit):
     ctx = yaql.create_context()
     N = task["N"]
-    eng = yaql.YaqlFactory().create(options={"yaql.limitIterators": N})
+    eng = engine_for({"yaql.limitIterators": N}, task.get("optroute"))
     reg = gen_limitfacts.layers(ctx)
     depth, name, fd = reg[task["fd"]]
     key = task["key"]
@@ -381,7 +413,6 @@ def run_expr(task, emit):
         opts["yaql.memoryQuota"] = task["Q"]
     if task.get("raw"):
         opts["yaql.convertOutputData"] = False
-    eng = yaql.YaqlFactory().create(options=opts)
     ctx = yaql.create_context()
     if task.get("record_args"):
         patch_payloads(ctx)
@@ -391,7 +422,7 @@ def run_expr(task, emit):
     for k, spec in (task.get("ctx") or {}).items():
         ctx[k] = build(spec)
     emit({"begin": task["id"]})
-    stmt = eng(task["expr"])
+    stmt = make_statement(task["expr"], opts, task.get("optroute"))
     if task.get("trace"):
         tracemalloc.start()
         tracemalloc.reset_peak()
@@ -409,14 +440,19 @@ def run_expr(task, emit):
             if o2 != "Ok":
                 out, deep = o2, None
     over = [r for r in _recorded if task.get("Q") and task["Q"] > 0 and r[1] > task["Q"]]
-    emit({"end": task["id"], "outcome": out, "size": size, "inner_size": inner, "peak": peak, "deep_max": deep,
+    wd = None
+    if out == "Ok" and task.get("N") is not None and not task.get("raw"):
+        o3, wd = guarded(lambda: width(val), 4.0)
+        if o3 != "Ok":
+            wd = None
+    emit({"end": task["id"], "outcome": out, "width": wd, "size": size, "inner_size": inner, "peak": peak, "deep_max": deep,
           "pulls": max([s.pulls for s in Src.registry] or [0]),
           "products": list(CountInt.log), "args_over_quota": over[:5],
           "kind": type(val).__name__ if out == "Ok" else None})
 
 
 def main():
-    resource.setrlimit(resource.RLIMIT_AS, (3 << 30, 3 << 30))
+    resource.setrlimit(resource.RLIMIT_AS, (2 << 30, 2 << 30))
 
     def emit(obj):
         sys.stdout.write(json.dumps(obj) + "\n")
